@@ -248,7 +248,16 @@ pub fn guarded<T, F: FnOnce() -> T + std::panic::UnwindSafe>(f: F) -> Result<T, 
 }
 
 pub fn quiet_panics() {
-    std::panic::set_hook(Box::new(|_| {}));
+    // no backtraces; the first few panics leave one line each, so that a panic the harness does not catch can be told apart
+    // from a failure of the harness itself (tools/wvlib.py reads the line)
+    static SEEN: std::sync::atomic::AtomicUsize = std::sync::atomic::AtomicUsize::new(0);
+    std::panic::set_hook(Box::new(|info| {
+        if SEEN.fetch_add(1, std::sync::atomic::Ordering::Relaxed) < 20 {
+            let loc = info.location().map(|l| format!("{}:{}", l.file(), l.line())).unwrap_or_default();
+            let msg = info.payload().downcast_ref::<&str>().map(|s| s.to_string()).or_else(|| info.payload().downcast_ref::<String>().cloned()).unwrap_or_default();
+            eprintln!("wv-panic at {} | {}", loc, msg.replace('\n', " "));
+        }
+    }));
 }
 
 /// Simple `--key value` argument access.
